@@ -403,7 +403,7 @@ pub fn run(run: &Run) {
 
     // ---- first use of lazily initialised state, raced in fresh processes
     if !miri {
-        let n = run.opts.size(64, 2_000);
+        let n = run.opts.size(64, 600);
         run.isolated("first-use", n, 120, "C18", |i, l| {
             // (child) nothing has been compiled or matched in this process yet
             let threads = 16;
